@@ -66,6 +66,7 @@ type frame struct {
 	mg moveGenerator
 	pv [maxDepth]tak.Move
 	m  tak.Move
+	te tableEntry
 
 	moves struct {
 		slice []tak.Move
@@ -631,6 +632,13 @@ func (ai *MinimaxAI) pvSearch(
 			te = nil
 		}
 	}
+	if te != nil {
+		// te points into the live table and the searches below
+		// overwrite that slot; the move generator needs the entry
+		// as it is now
+		ai.stack[ply].te = *te
+		te = &ai.stack[ply].te
+	}
 
 	// As of 1.6.2, Go's escape analysis can't tell that a
 	// stack-allocated object here doesn't escape. So we force it
@@ -755,6 +763,13 @@ func (ai *MinimaxAI) zwSearch(
 			}
 			te = nil
 		}
+	}
+	if te != nil {
+		// te points into the live table and the searches below
+		// overwrite that slot; the move generator needs the entry
+		// as it is now
+		ai.stack[ply].te = *te
+		te = &ai.stack[ply].te
 	}
 
 	if ai.nullMoveOK(ply, depth, p) {
